@@ -399,19 +399,16 @@ pub fn strftime(ts: time::OffsetDateTime, fmt: &str) -> Result<String, DateForma
             // any digits above (in our case) nanosecond are always to the right and
             // always 0, not spaces, so the normal format specifiers are ignored
             'L' | 'N' => {
-                let nanos = ts.nanosecond();
+                // The fraction of a second: the nine-digit, zero-padded nanoseconds, cut to
+                // (or extended with zeros up to) the requested number of digits
+                let nanos = format!("{:09}", ts.nanosecond());
                 let digits = padding.unwrap_or(if fmt_char == 'L' { 3 } else { 9 });
 
-                w!(
-                    output,
-                    "{:0<width$}",
-                    if digits <= 9 {
-                        nanos / 10u32.pow(9 - digits as u32)
-                    } else {
-                        nanos
-                    },
-                    width = digits
-                );
+                if digits <= 9 {
+                    output.push_str(&nanos[..digits]);
+                } else {
+                    w!(output, "{:0<width$}", nanos, width = digits);
+                }
 
                 continue;
             }
@@ -560,7 +557,10 @@ pub fn strftime(ts: time::OffsetDateTime, fmt: &str) -> Result<String, DateForma
                 output.push(lit);
             }
             Formats::Unknown => {
-                output.push_str(&fmt[fmt_pos..=cursor]);
+                // `cursor` is where the last consumed character starts, and it may be
+                // longer than one byte
+                let end = cursor + fmt[cursor..].chars().next().map_or(1, char::len_utf8);
+                output.push_str(&fmt[fmt_pos..end]);
                 continue;
             }
         };
